@@ -56,17 +56,7 @@ fn run_one(mon: &mut dyn Monitor, ctx: &mut Ctx, g: u64) -> Result<(), String> {
             return Err(msg);
         }
     }
-    for v in &ctx.viols[nv..] {
-        emit(
-            &Obj::new()
-                .s("t", "viol")
-                .s("property", ctx.prop)
-                .u("index", v.index)
-                .s("sig", &v.sig)
-                .s("detail", &v.detail)
-                .done(),
-        );
-    }
+    let _ = nv;
     Ok(())
 }
 
